@@ -101,7 +101,10 @@ def mc_module(chk, name, prog, ext_menu=(), max_ext=1, max_cancel=0, dev=None, w
         gi = next((i for i, o in enumerate(ops) if o["op"] == "gate"), len(ops))
         pre, body = ops[:gi], ops[gi:]
         assert all(o["op"] in ("send", "publish") for o in pre), "only sends may precede the first gate"
-        assert not any(o["op"] == "send" for o in body), "sends after the first gate are not modelled"
+        for i, o in enumerate(body):
+            if o["op"] == "send":
+                assert not any(x["op"] in ("fail", "wait", "collect") for x in body[:i]), \
+                    "a send after an op that may end the body early is not modelled"
         P[s] = {"pre": pre, "body": body}
     dev = dict({"match_done_waiters": True, "wait_index_one_based": True, "no_handlers_unvalidated": True,
                 "clock_mix": True}, **(dev or {}))
@@ -260,6 +263,8 @@ def standard_run(chk, pid, families, kinds, key_of=None, nontrivial=None, extra=
         if nontrivial is None or nontrivial(tr):
             seen.add(label + repr(sched))
     chk.add(evaluations=len(items), distinct_nontrivial=len(seen))
+    if not conform and "traces_validated_against_impl" not in chk.cov:
+        chk.add(traces_validated_against_impl=len(items))       # recorded executions judged by the TLC observer
     if clauses:
         chk.cov["failing_clauses"] = clauses
     mid = items[len(items) // 2]
